@@ -289,8 +289,19 @@ def main():
             bounded.append(r)
             if r.get("status") not in ("ok", "violation"):
                 errors.append((nb["name"], json.dumps(r)[:600]))
-            for v in r.get("violations", []):
+            # a harness shared by several properties reports every clause it watches; this check keeps its own
+            mine = [v for v in r.get("violations", []) if str(v.get("clause", pid + ".")).startswith(pid + ".")]
+            r["other_clauses_fired"] = sorted(set(list(r.get("other_clauses_fired") or []) + [str(v.get("clause")) for v in r.get("violations", []) if v not in mine]))
+            r["violations"] = mine
+            for v in mine:
                 native_viol.append((nb, v))
+    if tier == "thorough" and not a.no_native:
+        tw = native("axiom_twins.py", ["--seed", str(seed), "--rounds", "600"], timeout=900)
+        tw["name"] = "numpy-axiom-twins"
+        tw["bounded"] = True
+        bounded.append(tw)
+        if tw.get("status") != "ok":
+            errors.append(("numpy-axiom-twins", json.dumps(tw)[:600]))
     # classification ----------------------------------------------------------------------------
     kf = [k for k in known_findings() if k["property"] == pid and k.get("status") == "known"]
     led_full = ledger().get(pid, {})
@@ -389,8 +400,11 @@ def main():
             "vacuity": {"covers_checked": sum(len(r["covers"]) for r in recs), "unreachable": vac},
             "mutant_selftest": mres,
             "bounded_standins": bounded,
+            **({"evaluations": sum(int(b.get("evaluations") or 0) for b in bounded), "distinct_nontrivial": sum(int(b.get("distinct_nontrivial") or 0) for b in bounded),
+                "rule": " | ".join(str(b.get("rule")) for b in bounded if b.get("rule")), "explored_cases": [c_ for b in bounded for c_ in (b.get("samples") or [])][:12]}
+               if level in ("exploration", "fault_enumeration") else {}),
             "second_solver": second,
-            "samples": samples,
+            "samples": ([c_ for b in bounded for c_ in (b.get("samples") or [])][:8] + samples) if level in ("exploration", "fault_enumeration") else samples,
             "solver_time_s": round(sum(o["secs"] for r in recs for o in r["obligations"]), 2),
             "known_findings_hit": [k["what"] for k, _ in known_hits],
             "undecided": [list(u) for u in undecided][:20],
@@ -418,16 +432,19 @@ def main():
         if k["what"] not in seen_kf:
             seen_kf.add(k["what"])
             print("KNOWN-FINDING: property=%s %s" % (pid, k["what"]))
-    if errors:
-        for n, e in errors:
-            print("CHECKER-ERROR %s: %s" % (n, e))
-        return 3
     if violations:
+        # a refuted obligation / a failing input on the real code stands on its own, whatever else went wrong in this run
         for o, rp, found in violations:
             tail = "" if found is not None else " no-failing-input-found"
             print("FAILED-OBLIGATION %s%s" % (o["name"], " [top-level clause]" if o.get("top") else " [auxiliary]"))
             print("VIOLATION property=%s replay=%s%s" % (pid, rp, tail))
+        for n, e in errors:
+            print("CHECKER-ERROR %s: %s" % (n, e))
         return 1
+    if errors:
+        for n, e in errors:
+            print("CHECKER-ERROR %s: %s" % (n, e))
+        return 3
     if vac:
         print("UNDECIDED: unreachable (vacuous) program points: %s" % vac)
         return 2
